@@ -307,6 +307,26 @@ def vec_codecs(ctx, fb, cfg):
                     why = "element i read as %s, read advances to %s (init %s)" % (sh(nres, 200), sh(nread, 80), sh(read[4]))
             else:
                 why = "count is not the u64 LE at [0..8]"
+            if not good:
+                # the same reader spelled `for chunk in input[8..8 + 32 * count].chunks_exact(32) { push(bytes_le_to_fr(chunk)); read += 32 }`
+                ch = [c for c in b.calls(r"slice::ChunksExact<'a, T> as std::iter::Iterator>::next$")]
+                if len(ch) == 1 and ch[0][2] and ch[0][2][0][0] == "phi":
+                    src = ch[0][2][0][4]
+                    item = ("unwrap", ("call", ch[0][1], ch[0][2]))
+                    if isinstance(src, tuple) and src[0] == "call" and src[1].endswith("::chunks_exact") and cint(src[2][1]) == 32 and isinstance(src[2][0], tuple) and src[2][0][0] == "slice" \
+                            and src[2][0][1] == P(1) and cint(src[2][0][2]) == 8:
+                        hi = src[2][0][3]
+                        cnt = None
+                        if isinstance(hi, tuple) and hi[:2] == ("bin", "Add") and cint(hi[3]) == 8 and isinstance(hi[2], tuple) and hi[2][:2] == ("bin", "Mul"):
+                            cnt = [x for x in hi[2][2:] if cint(x) != 32]
+                        el2 = prim(fb, "rln::utils::bytes_le_to_fr", item)[1][0]
+                        nres = carried_value(it, b, res[3])
+                        nread = carried_value(it, b, read[3])
+                        if cnt and len(cnt) == 1 and is_usz(cnt[0], sl(P(1), 0, 8)) and res[4] == ("vecnew",) and cint(read[4]) == 8 \
+                                and nres == ("push", res, el2) and nread == fold_bin("Add", read, mk_const("usize", 32)):
+                            good = True
+                        else:
+                            why = "chunked reader: chunks of %s, element %s, read advances to %s" % (sh(src, 120), sh(nres, 120), sh(nread, 60))
     ctx.check(good, "R10-1", "rln::utils::bytes_le_to_vec_fr[%s]" % cfg, "count = u64 LE at 0; element i = bytes_le_to_fr(in[8+32i..8+32(i+1)]); read = 8+32*count",
               "vector reader deviates from [len<8> | el<32>...]: " + why, loc(it))
     # ---- Vec<u8>
